@@ -13,6 +13,8 @@ from fractions import Fraction
 
 import numpy as np
 
+from pwlib.share import shcopy
+
 from pwlib.canon import err_name, flat
 from pwlib.engine import Case
 from pwlib.proto import Line
@@ -20,6 +22,7 @@ from props import ct_steps as S
 
 ID = "C03"
 TARGETS = ["PW.Props.C03", "PW.Props.C03Gen"]
+INTERN_WITHIN_CASE = True   # see pwlib/engine.py: equal-valued step arguments are one object inside a program
 RULE = ("histories of 0..30 appending calls drawn from four streams: lattice (integer/half-integer translations, "
         "power-of-two uniform and non-uniform scales incl. negative ones with allow_flipping, flips, the 24 cube rotations, "
         "integer shear matrices with given or numerically computed inverse: all arithmetic exact), float (translations "
@@ -131,7 +134,7 @@ def make(spec):
     steps = spec["steps"]
     pts = spec["pts"]
     k = spec["k"]
-    P = np.array(pts, dtype=np.float64).reshape(-1, 3)
+    P = np.array(np.reshape(pts, (-1, 3)), dtype=np.float64)
     stack = P[:k]
     ct0, outs0 = build(spec)
     n_ok = len(ct0.transforms)
@@ -243,7 +246,7 @@ def oracle(spec):
         bad("index/length", "%d transforms stored after %d successful calls" % (len(ct.transforms), len(kept)))
         return dedupe(out)
     rng = random.Random(len(steps) * 7919 + len(spec["ranges"]))
-    P = np.array(spec["pts"], dtype=np.float64).reshape(-1, 3)
+    P = np.array(np.reshape(spec["pts"], (-1, 3)), dtype=np.float64)
     stack = P[:spec["k"]]
     ranges = list(spec["ranges"])
     sample = ranges if len(ranges) <= 10 else [ranges[0]] + rng.sample(ranges[1:], 9)
@@ -292,7 +295,7 @@ def oracle(spec):
             for rev in (False, True):
                 bnd = bnd_i if rev else bnd_f
                 tol = Fraction(1e-9) * Fraction(max(bnd, 1.0) * pm * 4)
-                got = ct(p.copy(), from_range=ra, reverse=rev, treat_input_as_vector=av)
+                got = ct(shcopy(p), from_range=ra, reverse=rev, treat_input_as_vector=av)
                 want = S.fold3(sel, fpt(p, 0)[:3], 0 if av else 1, rev)
                 g = [Fraction(float(x)) for x in got]
                 if np.shape(got) != (3,) or any(abs(a - b) > tol for a, b in zip(g, want)):
@@ -300,7 +303,7 @@ def oracle(spec):
                         "ct(%s, from_range=%s, reverse=%s, treat_input_as_vector=%s) = %s, applying the steps one after another gives %s"
                         % (p.tolist(), r, rev, av, np.asarray(got).tolist(), [float(x) for x in want]))
                 # round trip
-                back = ct(np.asarray(got, dtype=np.float64).copy(), from_range=ra, reverse=not rev, treat_input_as_vector=av)
+                back = ct(shcopy(np.asarray(got, dtype=np.float64)), from_range=ra, reverse=not rev, treat_input_as_vector=av)
                 tolb = Fraction(1e-9) * Fraction(max(bnd_f * bnd_i, 1.0) * pm * 8)
                 if any(abs(Fraction(float(a)) - Fraction(float(b))) > tolb for a, b in zip(back, p)):
                     bad(key("roundtrip/%s%s%s" % ("reverse-first" if rev else "forward-first", "-vector" if av else "", tag)),
@@ -309,7 +312,7 @@ def oracle(spec):
             if av:
                 lin = [a for a, st in zip(sel, sel_steps) if not S.is_translation(st)]
                 want = S.fold3(lin, fpt(p, 0)[:3], 0, False)
-                got = ct(p.copy(), from_range=ra, treat_input_as_vector=True)
+                got = ct(shcopy(p), from_range=ra, treat_input_as_vector=True)
                 tol = Fraction(1e-9) * Fraction(max(bnd_f, 1.0) * pm * 4)
                 if any(abs(Fraction(float(a)) - b) > tol for a, b in zip(got, want)):
                     bad(key("vector/ignores-translation" + tag), "range %s: vector %s gives %s, without the translations %s"
@@ -317,20 +320,20 @@ def oracle(spec):
         # --- stack = map, discard_z only drops z -----------------------------------------------------------------
         rev = rng.random() < 0.5
         av = rng.random() < 0.5
-        full = np.asarray(ct(stack.copy(), from_range=ra, reverse=rev, treat_input_as_vector=av))
+        full = np.asarray(ct(shcopy(stack), from_range=ra, reverse=rev, treat_input_as_vector=av))
         if full.shape != (len(stack), 3):
             bad("stack/shape", "stack of %d points gives shape %s" % (len(stack), full.shape))
         else:
             for i, q in enumerate(stack):
-                one = np.asarray(ct(q.copy(), from_range=ra, reverse=rev, treat_input_as_vector=av))
+                one = np.asarray(ct(shcopy(q), from_range=ra, reverse=rev, treat_input_as_vector=av))
                 if one.shape != (3,) or not np.allclose(one, full[i], rtol=0, atol=1e-9 * max(bnd_f, bnd_i, 1.0) * pm * 4):
                     bad("stack/is-map", "row %d of the stacked result %s differs from the single-point call %s" % (i, full[i].tolist(), one.tolist()))
-            dzs = np.asarray(ct(stack.copy(), from_range=ra, reverse=rev, treat_input_as_vector=av, discard_z_coord=True))
+            dzs = np.asarray(ct(shcopy(stack), from_range=ra, reverse=rev, treat_input_as_vector=av, discard_z_coord=True))
             if dzs.shape != (len(stack), 2) or not np.array_equal(dzs, full[:, :2]):
                 bad("discard_z/stack", "discard_z_coord result %s is not the first two columns of %s" % (dzs.tolist(), full.tolist()))
             if len(stack):
-                one = np.asarray(ct(stack[0].copy(), from_range=ra, reverse=rev, treat_input_as_vector=av))
-                dz1 = np.asarray(ct(stack[0].copy(), from_range=ra, reverse=rev, treat_input_as_vector=av, discard_z_coord=True))
+                one = np.asarray(ct(shcopy(stack[0]), from_range=ra, reverse=rev, treat_input_as_vector=av))
+                dz1 = np.asarray(ct(shcopy(stack[0]), from_range=ra, reverse=rev, treat_input_as_vector=av, discard_z_coord=True))
                 if dz1.shape != (2,) or not np.array_equal(dz1, one[:2]):
                     bad("discard_z/single", "discard_z_coord result %s is not the first two coordinates of %s" % (dz1.tolist(), one.tolist()))
     # --- index ranges built from returned values select exactly those steps --------------------------------------
